@@ -53,7 +53,7 @@ func c08CreateCase(c *ev.Ctx, op string, otherConn bool) {
 		sB = sA
 	}
 	ok := v1.OK && v2.OK && sA.attach(0, "").Errno() == 0 && (!otherConn || sB.attach(0, "").Errno() == 0)
-	ok = ok && sA.walk(0, 1, "a").Errno() == 0                                    // fid 1: the directory, becomes the created file
+	ok = ok && sA.walk(0, 1, "a").Errno() == 0                                      // fid 1: the directory, becomes the created file
 	ok = ok && sB.walk(0, 11, "a").Errno() == 0 && sB.walk(0, 12, "u").Errno() == 0 // B's own fids
 	if !ok {
 		c.Violation(sig+":setup-refused", map[string]any{})
